@@ -177,6 +177,7 @@ func c29() {
 		"controller.go: Pause returns success without re-saving when the in-memory flag is already set (after a Pause whose save failed) -> b-pause-flag-changed-in-restart save_fault=pause, a-started-while-paused origin=Pause (save-fault histories)",
 		"controller.go: flush answered before the transition errors are examined -> c-flush-succeeded-on-failed-cycle (transition-fault histories)",
 		"controller.go: resume without the disabled check, or with the check before taking the lifecycle lock -> d-call-after-terminate (Connect), d-files-reappeared-after-terminate, d-terminated-session-listed-after-restart (112-155 violations at seeds 1,2,3,7,42; command-race histories with slow non-preemptable scans)",
+		"fix f49a2bf reversed (retried Resume of an already connected session does not re-save) -> b-pause-flag-changed-in-restart before=false save_fault=resume, 4-6 per quick run at seeds 1,2,3,7,42",
 		"fix 1b06d96 reversed (reset ignores c.disabled) -> d-files-left-after-terminate concurrent_reset=true, 5-11 per quick run at seeds 1,2,3,7,42",
 	})
 	controls := []string{"pause_intervals_judged", "flush_wait_succeeded", "terminates_judged", "restarts_with_paused_sessions", "resets_judged", "calls:Stage", "calls:Supply", "calls:Transition", "calls:Scan"}
